@@ -611,12 +611,14 @@ static void put_tail(FILE *out) {
 }
 
 /* cfg <path> [structured twin tokens for the Lean side, ignored here] */
+extern void h_tcp_client_reset(void);
 static int op_cfg(int argc, char **argv, FILE *out) {
     int i;
     struct list_node *e;
     if (argc < 1)
         return 0;
     h_threads_reset();
+    h_tcp_client_reset();
     h_rq_reset();
     h_live_set(0);
     h_rewrite_reset();
@@ -1190,6 +1192,36 @@ static int op_dyndns(int argc, char **argv, FILE *out) {
     return 1;
 }
 
+/* what the stream-client readers do with a packet: the REAL replyh, with the packet, its verdict and the reply queue that grew recorded */
+int h_replyh_traced(struct server *s, unsigned char *buf, int len) {
+    int before[MAXCL], i, r, grown = -1;
+    char tmp[32];
+    for (i = 0; i < nwclients; i++)
+        before[i] = wclients[i] ? (int)list_count(wclients[i]->replyq->entries) : 0;
+    h_event("got", NULL, buf, len);
+    r = replyh(s, buf, len);
+    for (i = 0; i < nwclients; i++)
+        if (wclients[i] && (int)list_count(wclients[i]->replyq->entries) > before[i])
+            grown = i;
+    snprintf(tmp, sizeof(tmp), "%d,%d", r, grown);
+    h_event("res", tmp, NULL, -1);
+    return r;
+}
+
+/* srvconn <srvname> <event>...: the proxy as stream client of TCP server <srvname>: connection brought up by the real tcpconnect, the real
+   tcpclientrd reading what the scripted home server writes (w:<hex> | t | e), closeh/timeouth and the real reconnect included */
+extern int h_tcp_client(struct server *server, struct protodefs *pd, char **script, int nscript);
+static int op_srvconn(int argc, char **argv, FILE *out) {
+    struct server *s;
+    if (argc < 1 || !world_ready || !(s = srv_by_name(argv[0])) || s->conf->type != RAD_TCP)
+        return 0;
+    if (h_tcp_client(s, &fakepd[RAD_TCP], argv + 1, argc - 1))
+        return 0;
+    fputs("srvconn", out);
+    put_tail(out);
+    return 1;
+}
+
 /* tcpconn <source address> <event>...: a TCP peer connects from that address and follows the script (w:<hex> | e); see h_tcp_serve */
 extern int h_tcp_serve(const char *src, char **script, int nscript);
 static int op_tcpconn(int argc, char **argv, FILE *out) {
@@ -1588,6 +1620,7 @@ int h_rsp_op(const char *op, int argc, char **argv, FILE *out) {
     }
     if (!strcmp(op, "rxeval")) return op_rxeval(argc, argv, out);
     if (!strcmp(op, "reset")) return op_reset(argc, argv, out);
+    if (!strcmp(op, "srvconn")) return op_srvconn(argc, argv, out);
     if (!strcmp(op, "dyndns")) return op_dyndns(argc, argv, out);
     if (!strcmp(op, "rmserver")) return op_rmserver(argc, argv, out);
     if (!strcmp(op, "srvstate")) return op_srvstate(argc, argv, out);
